@@ -22,7 +22,10 @@ ObsInit == oState = "closed" /\ oOpenAt = 0 /\ oSt = [c \in Callers |-> "none"] 
 ObsReset == oState' = "closed" /\ oOpenAt' = 0 /\ oSt' = [c \in Callers |-> "none"] /\ oTrials' = {}
 
 \* ---- observers (only when C03 or C09 is enforced)
-Shielded == oState = "open" /\ E.t < oOpenAt + cfg.wait
+\* oOpenAt holds the end of the current shield: set when a step first shows Open, ended only
+\* by the wait running out or by a manual force_closed / reset -- not by the breaker showing
+\* another state on its own (a breaker that leaves Open early must still not let calls through)
+Shielded == E.t < oOpenAt
 RejectedAtOnce(c) ==
   /\ E.ns = 0
   /\ IF cfg.fb = 1 THEN (E.res = "ok" /\ E.val = 9000 + c) ELSE (E.res = "err" /\ E.kind = "open")
@@ -38,7 +41,9 @@ NextTrials ==
      ELSE base
 ObsStep ==
   /\ oState' = E.sync
-  /\ oOpenAt' = (IF E.sync = "open" THEN (IF oState = "open" THEN oOpenAt ELSE E.t) ELSE 0)
+  /\ oOpenAt' = (IF E.e = "op" /\ E.name \in {"force_closed", "reset"} THEN 0
+                 ELSE IF E.sync = "open" /\ oState # "open" THEN E.t + cfg.wait
+                 ELSE oOpenAt)
   /\ oTrials' = NextTrials
   /\ oSt' = (IF E.e = "create" THEN [oSt EXCEPT ![E.c] = "created"]
              ELSE IF E.e = "drop" THEN [oSt EXCEPT ![E.c] = "gone"]
